@@ -11,6 +11,7 @@ CONSTANTS
   SkipLock = "none"
   TxNoLock = FALSE
   WalGuard = TRUE
+  WalOwnerTest = FALSE
   Exclude = {"DmsW", "RecovW", "RecovU"}
   Gated = FALSE
   EmitEdges = FALSE
